@@ -322,6 +322,54 @@ class Ctx(object):
             self._apply_roots = sorted(roots)
         return self._apply_roots
 
+    def stat_model(self):
+        """(counter structs, state stat fields): the structs whose integer fields the apply step updates in place (the
+        blob statistics), and the fields of the guarded state that hold them (name -> struct), found by structure."""
+        if getattr(self, "_stat_model", None) is None:
+            prog = self.prog
+            state = self.anchors.get("STATE")
+            fam = self.apply_family()
+            counter_structs = set(w.field[1] for w in self.world.field_writes if w.body.path in fam
+                                  and prog.ty_str(self.world._field_ty(w.field)) in ("u64", "usize", "u32", "i64"))
+            counter_structs.discard(state)
+            stat_fields = {}
+            if state in prog.adts:
+                for f in prog.adts[state]["variants"][0]["fields"]:
+                    d = prog.adt_of(f["ty"])[0]
+                    if d in prog.adts and (d in counter_structs or prog.find_in_type(
+                            f["ty"], lambda t: t.get("k") == "adt" and t.get("def") in counter_structs)):
+                        stat_fields[f["name"]] = d
+            # every struct on the way from the state field down to the counters
+            stat_structs = set(counter_structs) | set(stat_fields.values())
+            self._stat_model = (counter_structs, stat_fields, stat_structs)
+        return self._stat_model
+
+    def recompute_points(self):
+        """Where statistics are set rather than adjusted, outside the apply step: {body path: [(bb, line)]} of plain
+        (non-incremental) writes of a counter, or of a whole statistics struct into the state."""
+        if getattr(self, "_recompute_points", None) is None:
+            prog = self.prog
+            state = self.anchors.get("STATE")
+            counter_structs, stat_fields, stat_structs = self.stat_model()
+            fam = self.apply_family()
+            out = {}
+            from .rules.c02 import is_incremental_update
+            for w in self.world.field_writes:
+                if w.body.path in fam or w.rv["k"] not in ("use", "cast"):
+                    continue
+                b = w.body
+                if b.raw.get("impl_trait") in ("std::default::Default", "std::clone::Clone"):
+                    continue
+                fty = prog.adt_of(self.world._field_ty(w.field))[0]
+                counter_write = w.field[1] in stat_structs and prog.ty_str(self.world._field_ty(w.field)) in (
+                    "u64", "usize", "u32", "i64") and w.field[1] in counter_structs and not is_incremental_update(self, w)
+                struct_write = (w.field[1] == state and w.field[2] in stat_fields) or \
+                    (w.field[1] in stat_structs and fty in stat_structs)
+                if counter_write or struct_write:
+                    out.setdefault(b.path, []).append((w.bb, w.line))
+            self._recompute_points = out
+        return self._recompute_points
+
     def apply_view(self, root_path):
         """Flat view of an apply root: per-variant helpers and bookkeeping wrappers inlined, the two refcount
         primitives kept as calls (their meaning is checked separately)."""
